@@ -26,12 +26,18 @@ def main():
         d = tempfile.mkdtemp(prefix='luaverif-mut-', dir='/tmp')
         try:
             run("rsync -a --exclude .git /repo/ %s/" % d)
-            path = os.path.join(d, m['file'])
-            s = open(path).read()
-            if s.count(m['old']) != 1:
-                results.append((m['name'], 'STALE', 'old text occurs %d times' % s.count(m['old'])))
+            edits = m.get('edits') or [{'file': m['file'], 'old': m['old'], 'new': m['new']}]
+            stale = None
+            for e in edits:
+                path = os.path.join(d, e['file'])
+                s = open(path).read()
+                if s.count(e['old']) != 1:
+                    stale = 'old text occurs %d times in %s' % (s.count(e['old']), e['file'])
+                    break
+                open(path, 'w').write(s.replace(e['old'], e['new']))
+            if stale:
+                results.append((m['name'], 'STALE', stale))
                 continue
-            open(path, 'w').write(s.replace(m['old'], m['new']))
             b = run("cd %s && go build ./... 2>&1 | grep -v '^#' | grep -v linkname | head -5" % d)
             if 'error' in b.stdout or '.go:' in b.stdout:
                 results.append((m['name'], 'NOCOMPILE', b.stdout.strip()[:300]))
